@@ -67,8 +67,8 @@ Definition budgets_mapof : list (string * (list (stok * option nat) * nat)) := [
   ("GetOrSet", ([(TCompute, Some 1)], 0));
   ("GetWithExpiration", ([(TCompute, Some 1); (TLoad, Some 1); (TNow, Some 1)], 0));
   ("GetWithTTL", ([(TCompute, Some 1); (TLoad, Some 1); (TNow, Some 2)], 0));
-  ("Items", ([(TDflt, Some 1); (TNow, Some 1); (TSnapshot, Some 1); (TSize, Some 1); (TUserFn, None)], 0));
-  ("Range", ([(TDflt, Some 1); (TNow, Some 1); (TSnapshot, Some 1); (TUserFn, None)], 0));
+  ("Items", ([(TNow, Some 1); (TSnapshot, Some 1); (TSize, Some 1); (TUserFn, None)], 0));
+  ("Range", ([(TNow, Some 1); (TSnapshot, Some 1); (TUserFn, None)], 0));
   ("Set", ([(TDflt, Some 1); (TNow, Some 1); (TStore, Some 1)], 0));
   ("SetDefault", ([(TDflt, Some 1); (TNow, Some 1); (TStore, Some 1)], 0));
   ("SetDefaultExpiration", ([(TWDflt, Some 1)], 0));
